@@ -88,7 +88,7 @@ def main(ctx, cases=None):
     except TranslateError as e:
         ctx.obligation("translator boundscheck.py (per-dimension checks in every accessor of multiarr.hpp)", False, str(e))
         tr_ok = False
-    proofs_ok = ctx.lean_props("C11") if tr_ok else False
+    proofs_ok = ctx.lean_props("C11", extra_modules=["Ecpint.Props.C11b"]) if tr_ok else False
     b = build.build("asan")
     drv = build.compile_driver(b, "corr_safety.cpp")
     if cases is None:
